@@ -167,9 +167,9 @@ Qed.
 
 Lemma clear_js_canon v v' : canon v = canon v' -> canon (clear_js v) = canon (clear_js v').
 Proof.
-  rewrite !clear_js_fold. revert v v'.
+  rewrite (clear_js_fold v), (clear_js_fold v'). revert v v'.
   induction js_limit_names as [| n r IH]; intros v v' H; [exact H|].
-  simpl. apply IH. now apply clear_step_canon.
+  cbn [fold_left]. apply IH. now apply clear_step_canon.
 Qed.
 
 (* a non-empty map, seen through canon *)
@@ -180,16 +180,18 @@ Proof. destruct x as [| | |[[|]|]|[[|]|]|[|]| |[[]|]]; reflexivity. Qed.
 
 Definition tiered_path : list string := ["nats"; "limits"; "tiered_limits"].
 
+Lemma nem_match {A} (o : option val) (a b : A) :
+  match o with Some (VMap (Some (_ :: _))) => a | _ => b end =
+  match o with Some x => if nem x then a else b | None => b end.
+Proof. destruct o as [[| | | |[[|]|]| | |]|]; reflexivity. Qed.
+
 Lemma post_v2_account v :
   post_v2 KAccount v =
   match getp sch_account tiered_path v with
   | Some x => if nem x then clear_js v else v
   | None => v
   end.
-Proof.
-  unfold post_v2, tiered_path.
-  destruct (getp sch_account ["nats"; "limits"; "tiered_limits"] v) as [[| | | |[[|]|]| | |]|]; reflexivity.
-Qed.
+Proof. exact (nem_match (getp sch_account tiered_path v) (clear_js v) v). Qed.
 
 Lemma k1_guard_account v :
   k1_guard KAccount v =
@@ -197,10 +199,7 @@ Lemma k1_guard_account v :
   | Some x => if nem x then val_eqb (clear_js v) v else true
   | None => true
   end.
-Proof.
-  unfold k1_guard, tiered_path.
-  destruct (getp sch_account ["nats"; "limits"; "tiered_limits"] v) as [[| | | |[[|]|]| | |]|]; reflexivity.
-Qed.
+Proof. exact (nem_match (getp sch_account tiered_path v) (val_eqb (clear_js v) v) true). Qed.
 
 Lemma post_v2_account_canon v v' :
   canon v' = canon v -> k1_guard KAccount v = true -> canon (post_v2 KAccount v') = canon v.
@@ -241,7 +240,7 @@ Proof.
   destruct sk as [| | | |[[|]|]| | |]; try discriminate Ht; destruct o; reflexivity.
 Qed.
 
-Lemma omit_ok_two_level t cfs afs i1 i2 n1 n2 o2 skt v :
+Lemma omit_ok_two_level t (cfs afs : list field) i1 i2 n1 n2 o2 skt v :
   t = TStruct cfs -> nth_error cfs i1 = Some (n1, true, TStruct afs) ->
   nth_error afs i2 = Some (n2, o2, skt) -> is_keyset skt = true ->
   wf_ty t = true -> has_type t v = true ->
@@ -254,8 +253,9 @@ Proof.
   rewrite zero_val_struct, omit_ok_struct in Hz. rewrite omit_ok_struct.
   rewrite has_type_struct in Ht. destruct (has_type_fields_nth _ _ Ht) as [Hlv Htn].
   rewrite wf_ty_struct in Hw. apply andb_true_iff in Hw as [_ Hw].
-  pose proof (wf_fields_In cfs _ Hw (nth_error_In _ _ H1)) as Hwa. simpl in Hwa.
-  assert (L1 : (i1 < length vs)%nat) by (rewrite Hlv; apply nth_error_Some; congruence).
+  pose proof (wf_fields_In cfs _ Hw (nth_error_In _ _ H1)) as Hwa.
+  change (wf_ty (TStruct afs) = true) in Hwa.
+  assert (L1 : (i1 < length vs)%nat) by (rewrite Hlv; apply nth_error_Some; rewrite H1; discriminate).
   destruct (nth_error_some_lt vs i1 L1) as [nv Hnv].
   pose proof (Htn i1 n1 true (TStruct afs) nv H1 Hnv) as Hta.
   eapply omit_fields_set_nth; try eassumption.
@@ -263,7 +263,7 @@ Proof.
   pose proof (zero_compatible _ _ Hwa Hta) as Hza.
   rewrite zero_val_struct, omit_ok_struct in Hza. rewrite omit_ok_struct.
   rewrite has_type_struct in Hta. destruct (has_type_fields_nth _ _ Hta) as [Hla Htna].
-  assert (L2 : (i2 < length ns)%nat) by (rewrite Hla; apply nth_error_Some; congruence).
+  assert (L2 : (i2 < length ns)%nat) by (rewrite Hla; apply nth_error_Some; rewrite H2; discriminate).
   destruct (nth_error_some_lt ns i2 L2) as [sk Hsk].
   eapply omit_fields_set_nth; try eassumption.
   apply keyset_preset_ok; [exact Hk|]. eapply Htna; eassumption.
@@ -331,11 +331,10 @@ Lemma k2_refuted : exists (v : val) (j : json) (v' : val),
   has_type sch_account v = true /\ enc sch_account v = Some j /\
   load_v2 KAccount j = Some v' /\ canon v' <> canon v.
 Proof.
-  exists k2_account.
   destruct (enc sch_account k2_account) as [j|] eqn:Ej; [|vm_compute in Ej; discriminate Ej].
   destruct (load_v2 KAccount j) as [v'|] eqn:El;
     [|vm_compute in Ej; injection Ej as <-; vm_compute in El; discriminate El].
-  exists j, v'. split; [vm_compute; reflexivity|]. split; [reflexivity|]. split; [reflexivity|].
+  exists k2_account, j, v'. split; [vm_compute; reflexivity|]. split; [exact Ej|]. split; [exact El|].
   vm_compute in Ej. injection Ej as <-. vm_compute in El. injection El as <-.
   vm_compute. discriminate.
 Qed.
